@@ -73,6 +73,7 @@ pub struct St {
     pub ok: bool, pub oc: int, pub nc: int, pub ro: int, pub rn: int, pub po: int, pub pn: int,
     pub dels: int, pub inss: int, pub eqs: int, pub oe: int, pub ne: int,
     pub fin: bool,          // `finish` has been received: nothing may follow
+    pub o0: int, pub n0: int,   // where the script started (never changes; lets a final state reveal its start)
     pub lvl: int,           // 0: only the cursor side of every event is checked; 1: carried indices must lie within their run of changes;
                             // 2: carried indices must be exact (equal to the cursor)
 }
@@ -155,7 +156,7 @@ pub proof fn lemma_run_empty(rel: Rel, st: St)
 
 /// canonical start state at (o,n) for the box ending at (oe,ne)
 pub open spec fn canon(o: int, n: int, oe: int, ne: int) -> St {
-    St { ok: true, oc: o, nc: n, ro: o, rn: n, po: o, pn: n, dels: 0, inss: 0, eqs: 0, oe: oe, ne: ne, fin: false, lvl: 1 }
+    St { ok: true, oc: o, nc: n, ro: o, rn: n, po: o, pn: n, dels: 0, inss: 0, eqs: 0, oe: oe, ne: ne, fin: false, lvl: 1, o0: o, n0: n }
 }
 
 /// canonical start state at another checking level
@@ -207,7 +208,7 @@ pub proof fn lemma_mono(rel: Rel, st: St, s: Seq<Ev>)
   requires st.ro <= st.oc, st.rn <= st.nc
   ensures ({ let st2 = run_rel(rel, st, s); st2.ro <= st2.oc && st2.rn <= st2.nc && st2.oc >= st.oc && st2.nc >= st.nc
       && st2.oe == st.oe && st2.ne == st.ne && st2.eqs >= st.eqs && st2.dels >= st.dels && st2.inss >= st.inss && (st2.ok ==> st.ok)
-      && (st.fin ==> st2.fin) && st2.lvl == st.lvl && (st2.ok && st.oc <= st.oe && st.nc <= st.ne ==> st2.oc <= st2.oe && st2.nc <= st2.ne) })
+      && (st.fin ==> st2.fin) && st2.lvl == st.lvl && st2.o0 == st.o0 && st2.n0 == st.n0 && (st2.ok && st.oc <= st.oe && st.nc <= st.ne ==> st2.oc <= st2.oe && st2.nc <= st2.ne) })
   decreases s.len()
 {
     reveal(step_rel);
